@@ -18,9 +18,12 @@ from ginverif import core
 NUMS = ['1', '0', '17', '0x1F', '1_000', '1.5', '1e3', '.5', '100000000000000000000', '0o17', '0b11', '1j', '3.',
         '1E-7', '0.0', '2.5e+300', '7_7.0_1']
 STRS = ["'a'", '"b c"', "r'\\d'", "u'x'", "'q\\'uote'", "'#notcomment'", '"""tri "q" ple"""', "'\\n\\t\\\\'", "'\\x41\\u00e9'",
-        '" lead "', "R\"raw\\\"\"", "'[1, 2]'", "'a' ", "'''it's'''"]
+        '" lead "', "R\"raw\\\"\"", "'[1, 2]'", "'a' ", "'''it's'''",
+        # raw characters that str.splitlines() (but not the tokenizer's readline) treats as line boundaries, and a
+        # triple-quoted string spanning lines
+        "'form\x0cfeed'", '"""fs\x1cgs\x1d"""', "'nel\x85'", "'ls\u2028ps\u2029'", "'vt\x0btab\t'", "'''line1\nline2'''"]
 EMPTY = ["''", '""', "''''''", '""""""', "r''", 'u""']
-BYTES = ["b'a'", 'B"b"', "rb'x'", "b''", "Rb'\\d'", "bR\"q\"", "b'\\x00\\xff'"]
+BYTES = ["b'a'", 'B"b"', "rb'x'", "b''", "Rb'\\d'", "bR\"q\"", "b'\\x00\\xff'", "b'ff\x0c'", "b'''l1\nl2'''"]
 KNAMES = ['True', 'False', 'None']
 XNAMES = ['foo', 'true', 'nan', 'inf', 'none', 'x1', '_']
 REF_NAME = 'gvsyn_ref'
@@ -165,26 +168,43 @@ def has_ref(v):
   return False
 
 
-def real_parse(text):
-  """Parses `gvsyn_probe.p = <text>` with the real gin.  Returns ('ok', value) or ('err', class name)."""
+_HIST = dict(n=0, prev=None)
+
+
+def real_parse(text, prev=None, fresh=False):
+  """Parses `gvsyn_probe.p = <text>` with the real gin.  Returns ('ok', value) or ('err', class name).
+  The configuration is cleared only every few cases: a literal must be stored exactly whatever the parameter was bound
+  to before (the text parsed last is kept in LAST_PREV for replay files).  `prev`: replay that history explicitly."""
   gin, config = setup()
-  gin.clear_config()
+  _HIST['n'] += 1
+  if prev is not None or fresh or _HIST['n'] % 5 == 0:
+    gin.clear_config()
+    _HIST['prev'] = None
+    if prev is not None:
+      try:
+        gin.parse_config('gvsyn.gvsyn_probe.p = ' + prev)
+        _HIST['prev'] = prev
+      except Exception:  # pylint: disable=broad-except
+        pass
+  LAST_PREV[0] = _HIST['prev']
   try:
     gin.parse_config('gvsyn.gvsyn_probe.p = ' + text)
+    _HIST['prev'] = text
     return 'ok', config.query_parameter('gvsyn.gvsyn_probe.p')
   except (SyntaxError, tokenize.TokenError) as e:
     return 'err', type(e).__name__
   except Exception as e:  # pylint: disable=broad-except
     return 'other', '%s: %s' % (type(e).__name__, e)
-  finally:
-    gin.clear_config()
 
 
-def check_case(toks, outcome, text):
+LAST_PREV = [None]
+
+
+def check_case(toks, outcome, text, prev=None):
   """Compares the real parser on `text` with the specification's outcome for `toks`.
   Returns None or a divergence dict."""
   _, config = setup()
-  kind, val = real_parse(text)
+  kind, val = real_parse(text, prev=prev)
   if outcome[0] == 'err':
     if kind != 'err':
       return dict(clause='rejects', toks=toks, text=text, expected='SyntaxError / TokenError', got=[kind, repr(val)[:200]])
